@@ -8,6 +8,7 @@ from hypothesis import strategies as st
 
 from .. import gens, refs
 from ..runner import Sub
+from . import probes
 from .common import L, Checker, arr
 
 PROPERTY_ID = "C11"
@@ -19,6 +20,7 @@ RULE = ("pairs (start, end = start * delta) with relative rotation angle log-uni
         "the two atan2 angles; out-of-range s raises (3-D matrix and quaternion routes); vector s = map over scalars; all "
         "routes agree. Non-trivial: relative angle < 1e-6 or > pi/2, or negative quaternion dot product, or s within 1e-9 of "
         "an end, or vector s.")
+RULE = RULE + probes.RULE_TEXT + (probes.AUG_TEXT if PROPERTY_ID in probes.AUG_PROPS else "")
 ASSUMPTIONS = ["tolerance 1e-6 (relative to max(1,|t|) for translations), validity 1e-9",
                "antipodal quaternion pairs (|dot| > 0.999 with the long arc) are outside the domain and skipped (counted under label antipodal_skipped)",
                "2-D routes are not required to reject s outside [0,1]"]
@@ -89,6 +91,8 @@ def _intdtype(case):
 
 
 def check_case(case):
+    if case.get("kind") in ("hist", "aug"):
+        return probes.run(case, PROPERTY_ID)
     return {"interp3": _interp3, "interp2": _interp2, "intdtype": _intdtype}[case["kind"]](case)
 
 
@@ -286,6 +290,8 @@ def _interp2(case):
 
 
 def classify(case):
+    if case.get("kind") in ("hist", "aug"):
+        return probes.classify(case)
     k = case["kind"]
     if k == "intdtype":
         return {"kind:intdtype": True, "nontrivial": bool(case["int_start"] or case["int_end"])}
@@ -308,4 +314,5 @@ def subchecks(tier):
         Sub("interp3", strategy=s_interp3(), n=(600, 12000), shards=(10, 16)),
         Sub("interp2", strategy=s_interp2(), n=(300, 8000), shards=(4, 16)),
         Sub("intdtype", strategy=s_intdtype(), n=(300, 4000), shards=(2, 8)),
+        *probes.subs(PROPERTY_ID),
     ]
